@@ -47,6 +47,10 @@ func NewFromBytes(b []byte) *Script {
 // NewFromASM creates a new script from a BitCoin ASM formatted string.
 func NewFromASM(str string) (*Script, error) {
 	s := Script{}
+	if str == "" {
+		// the assembly of the empty script (Split would yield one empty section: a push of nothing)
+		return &s, nil
+	}
 
 	for _, section := range strings.Split(str, " ") {
 		if val, ok := opCodeStrings[section]; ok {
